@@ -1,1 +1,844 @@
-//! C03: not implemented yet.
+//! C03 — the clock is only steered on a majority consensus of usable sources.
+//!
+//! Engine E-IN, two drivers over the same kind of input (a vector of source estimates +
+//! `minimum-agreeing-sources`):
+//!
+//! (d) **direct**: the real `select` (+ `combine`) is called through the kalman probe on
+//!     every vector of n snapshots over a 17-symbol per-source alphabet (exact dyadic
+//!     offsets / radii so that *touching* intervals are exact ties; radius exactly at and
+//!     just above the uncertainty limit; unsynchronised; periodic), every
+//!     `minimum_agreeing_sources` in 1..=4 and three different realisations of the same
+//!     radius through (statistical weight, delay weight, uncertainty, delay).
+//!     All orders are covered because all vectors (not multisets) are enumerated.
+//!
+//! (e) **end to end**: a fresh `KalmanClockController` over a recording clock;
+//!     `add_source`/`add_one_way_source` per source, one real measurement through the real
+//!     source controller (first-sample snapshots: offset and delay are exactly the chosen
+//!     whole seconds), `source_update` with the usable flag, then one `source_message`
+//!     that makes the controller decide on the complete table. Observed: `step_clock` /
+//!     `set_frequency` calls, `used_sources`, the message sent back to the sources.
+//!
+//! Oracle (from the statement, integer arithmetic, brute force over interval end points):
+//!   eligible  = usable ∧ synchronised ∧ non-periodic ∧ radius <= limit
+//!   M_closed  = max number of eligible closed intervals [o-r, o+r] sharing a point
+//!   M_open    = the same for open intervals (lower bound on exact ties)
+//!   steered / selection non-empty  =>  M_closed >= min ∧ 2*M_closed > |eligible|
+//!   every selected / used source is usable, synchronised, radius <= limit
+//!   the non-periodic selected sources (the voters whose estimate is used) contain an
+//!   agreeing set that is >= min and a strict majority of the eligible ones; when no two
+//!   eligible intervals touch they all share the point (separate class, derived).
+//! The converse (consensus => steered) is a coverage statistic only.
+use std::sync::{Arc, Mutex};
+
+use super::common::{self, Ctx};
+use crate::{
+    ClockId,
+    algorithm::{
+        AlgorithmConfig, InternalMeasurement, InternalSourceController, InternalStateUpdate,
+        InternalTimeSyncController, KalmanClockController, KalmanControllerMessage,
+        KalmanSourceMessage,
+    },
+    clock::NtpClock,
+    config::{SourceConfig, SynchronizationConfig},
+    packet::NtpLeapIndicator,
+    time_types::{NtpDuration, NtpTimestamp},
+};
+
+pub(super) type Snap = (u64, f64, f64, f64, Option<f64>, NtpLeapIndicator);
+
+// ---------------------------------------------------------------------------------
+// shared rig (also used by c04): recording clock + helpers
+// ---------------------------------------------------------------------------------
+
+#[derive(Clone, Debug, PartialEq)]
+pub(super) enum Call {
+    Step(i64),
+    Freq(f64),
+    Status(NtpLeapIndicator),
+    ErrEst,
+    Disable,
+}
+
+#[derive(Clone)]
+pub(super) struct RecClock {
+    pub log: Arc<Mutex<Vec<Call>>>,
+    pub now: NtpTimestamp,
+}
+
+impl RecClock {
+    pub(super) fn new(now: NtpTimestamp) -> RecClock {
+        RecClock {
+            log: Arc::new(Mutex::new(Vec::new())),
+            now,
+        }
+    }
+    pub(super) fn take(&self) -> Vec<Call> {
+        std::mem::take(&mut *self.log.lock().unwrap())
+    }
+}
+
+/// raw 2^-32 s units of a duration (through public arithmetic only)
+pub(super) fn raw(d: NtpDuration) -> i64 {
+    i64::from_be_bytes((NtpTimestamp::default() + d).to_bits())
+}
+
+/// A duration of exactly `s` whole seconds *as seen by `to_seconds`* (which divides by
+/// 2^32 - 1): raw = s * (2^32 - 1) converts back to exactly `s as f64`.
+pub(super) fn whole_seconds(s: i64) -> NtpDuration {
+    NtpDuration::from_fixed_int(s * 0xFFFF_FFFF)
+}
+
+impl NtpClock for RecClock {
+    type Error = std::io::Error;
+    fn now(&self) -> Result<NtpTimestamp, Self::Error> {
+        Ok(self.now)
+    }
+    fn set_frequency(&self, freq: f64) -> Result<NtpTimestamp, Self::Error> {
+        self.log.lock().unwrap().push(Call::Freq(freq));
+        Ok(self.now)
+    }
+    fn get_frequency(&self) -> Result<f64, Self::Error> {
+        Ok(0.0)
+    }
+    fn step_clock(&self, offset: NtpDuration) -> Result<NtpTimestamp, Self::Error> {
+        self.log.lock().unwrap().push(Call::Step(raw(offset)));
+        Ok(self.now)
+    }
+    fn disable_ntp_algorithm(&self) -> Result<(), Self::Error> {
+        self.log.lock().unwrap().push(Call::Disable);
+        Ok(())
+    }
+    fn error_estimate_update(&self, _e: NtpDuration, _m: NtpDuration) -> Result<(), Self::Error> {
+        self.log.lock().unwrap().push(Call::ErrEst);
+        Ok(())
+    }
+    fn status_update(&self, leap: NtpLeapIndicator) -> Result<(), Self::Error> {
+        self.log.lock().unwrap().push(Call::Status(leap));
+        Ok(())
+    }
+}
+
+pub(super) type Ctl = KalmanClockController<RecClock>;
+pub(super) type TwoWay = <Ctl as InternalTimeSyncController>::NtpSourceController;
+pub(super) type OneWay = <Ctl as InternalTimeSyncController>::OneWaySourceController;
+
+/// fixed local time of every measurement (all filters stay at the same time)
+pub(super) fn t0() -> NtpTimestamp {
+    NtpTimestamp::from_fixed_int(0x1000_0000_0000_0000)
+}
+
+/// One real measurement through a fresh real two-way source controller.
+pub(super) fn two_way_message(
+    ctl: &mut Ctl,
+    id: u64,
+    offset_s: i64,
+    delay_s: i64,
+    leap: NtpLeapIndicator,
+) -> (TwoWay, Option<KalmanSourceMessage>) {
+    let mut src = ctl.add_source(ClockId(id), SourceConfig::default());
+    let m = src.handle_measurement(InternalMeasurement {
+        delay: whole_seconds(delay_s),
+        offset: whole_seconds(offset_s),
+        localtime: t0(),
+        root_delay: NtpDuration::ZERO,
+        root_dispersion: NtpDuration::ZERO,
+        leap,
+        precision: 0,
+    });
+    (src, m)
+}
+
+/// One real measurement through a fresh real one-way (periodic) source controller.
+pub(super) fn one_way_message(
+    ctl: &mut Ctl,
+    id: u64,
+    offset_s: i64,
+    period: Option<f64>,
+    leap: NtpLeapIndicator,
+) -> (OneWay, Option<KalmanSourceMessage>) {
+    let mut src = ctl.add_one_way_source(ClockId(id), SourceConfig::default(), 1e-6, 0.0, period);
+    let m = src.handle_measurement(InternalMeasurement {
+        delay: (),
+        offset: whole_seconds(offset_s),
+        localtime: t0(),
+        root_delay: NtpDuration::ZERO,
+        root_dispersion: NtpDuration::ZERO,
+        leap,
+        precision: 0,
+    });
+    (src, m)
+}
+
+pub(super) fn steering_calls(log: &[Call]) -> usize {
+    log.iter()
+        .filter(|c| matches!(c, Call::Step(_) | Call::Freq(_)))
+        .count()
+}
+
+// ---------------------------------------------------------------------------------
+// reference oracle
+// ---------------------------------------------------------------------------------
+
+/// Max number of closed / open intervals sharing a point (brute force over end points
+/// and, for open intervals, over the mid points between consecutive end points).
+pub(super) fn max_overlap(ivs: &[(i64, i64)]) -> (usize, usize) {
+    if ivs.is_empty() {
+        return (0, 0);
+    }
+    let mut pts: Vec<i64> = Vec::with_capacity(ivs.len() * 2);
+    for (lo, hi) in ivs {
+        pts.push(2 * lo);
+        pts.push(2 * hi);
+    }
+    pts.sort_unstable();
+    pts.dedup();
+    let mut closed = 0;
+    for p in &pts {
+        let c = ivs.iter().filter(|(lo, hi)| 2 * lo <= *p && *p <= 2 * hi).count();
+        closed = closed.max(c);
+    }
+    let mut open = 0;
+    for w in pts.windows(2) {
+        let mid = (w[0] + w[1]) / 2; // doubled coordinates: always an integer strictly between
+        let c = ivs.iter().filter(|(lo, hi)| 2 * lo < mid && mid < 2 * hi).count();
+        open = open.max(c);
+    }
+    (closed, open)
+}
+
+#[derive(Clone, Copy, PartialEq, Eq, Hash, Debug)]
+enum Kind {
+    Normal,
+    Unsync,
+    Periodic,
+}
+
+/// A per-source estimate in integer units (1/1024 s direct, 1 s end to end).
+#[derive(Clone, Copy, Debug, PartialEq, Eq, Hash)]
+struct Sym {
+    off: i64,
+    rad: i64,
+    kind: Kind,
+    usable: bool,
+}
+
+struct Verdict {
+    eligible: usize,
+    m_closed: usize,
+    m_open: usize,
+    tie: bool,
+    /// some pair of eligible intervals touches in exactly one point
+    touching: bool,
+    cond_closed: bool,
+    cond_open: bool,
+}
+
+fn reference(syms: &[Sym], limit: i64, min: usize) -> Verdict {
+    let ivs: Vec<(i64, i64)> = syms
+        .iter()
+        .filter(|s| s.usable && s.kind == Kind::Normal && s.rad <= limit)
+        .map(|s| (s.off - s.rad, s.off + s.rad))
+        .collect();
+    let (m_closed, m_open) = max_overlap(&ivs);
+    let e = ivs.len();
+    Verdict {
+        eligible: e,
+        m_closed,
+        m_open,
+        tie: m_closed != m_open,
+        touching: ivs.iter().any(|a| ivs.iter().any(|b| a.1 == b.0)),
+        cond_closed: m_closed >= min && 2 * m_closed > e,
+        cond_open: m_open >= min && 2 * m_open > e,
+    }
+}
+
+/// Checks shared by both drivers. `selected` = bit mask over positions of the sources the
+/// implementation selected / used; `acted` = it selected something / touched the clock.
+/// Returns violation (class, text) list.
+fn judge(
+    syms: &[Sym],
+    limit: i64,
+    min: usize,
+    v: &Verdict,
+    acted: bool,
+    selected: u32,
+    non_clique_on_tie: &mut u64,
+) -> Vec<(&'static str, String)> {
+    let mut out = Vec::new();
+    if acted && !v.cond_closed {
+        out.push((
+            "C03:steer-without-consensus",
+            format!(
+                "acted with eligible={} max-agreeing(closed)={} min={min}",
+                v.eligible, v.m_closed
+            ),
+        ));
+    }
+    let mut voters: Vec<(i64, i64)> = Vec::new();
+    for (i, s) in syms.iter().enumerate() {
+        if selected & (1 << i) == 0 {
+            continue;
+        }
+        if !s.usable || s.kind == Kind::Unsync || s.rad > limit {
+            out.push((
+                "C03:ineligible-used",
+                format!(
+                    "source #{i} (usable={}, {:?}, radius {} limit {limit}) is part of the estimate",
+                    s.usable, s.kind, s.rad
+                ),
+            ));
+        } else if s.kind == Kind::Normal {
+            voters.push((s.off - s.rad, s.off + s.rad));
+        }
+    }
+    if selected != 0 {
+        // The estimate must be built on the consensus: the selected non-periodic sources
+        // contain an agreeing set that is >= min and a strict majority of the eligible ones.
+        let (m_sel, _) = max_overlap(&voters);
+        if m_sel < min || 2 * m_sel <= v.eligible {
+            out.push((
+                "C03:selection-lacks-consensus",
+                format!(
+                    "only {m_sel} of the {} selected non-periodic sources agree (eligible={}, min={min})",
+                    voters.len(),
+                    v.eligible
+                ),
+            ));
+        } else if m_sel != voters.len() && v.touching {
+            *non_clique_on_tie += 1;
+        } else if m_sel != voters.len() {
+            // Derived requirement (reported under its own class): without exact ties a
+            // source that does not share the common point is a falseticker and must not
+            // be merged into the estimate. With touching intervals the implementation's
+            // closed final filter may legitimately admit both neighbours of the common
+            // interval, so nothing is demanded there.
+            out.push((
+                "C03:outlier-in-selection",
+                format!(
+                    "{} selected non-periodic sources but only {m_sel} of them share a point and no intervals touch",
+                    voters.len()
+                ),
+            ));
+        }
+    }
+    out
+}
+
+// ---------------------------------------------------------------------------------
+// (d) direct driver
+// ---------------------------------------------------------------------------------
+
+const D_LIMIT: i64 = 32; // 32/1024 s
+
+fn d_syms() -> Vec<Sym> {
+    let mut v = Vec::new();
+    for off in [0, 16, 32, 48] {
+        for rad in [8, 16, 24] {
+            v.push(Sym { off, rad, kind: Kind::Normal, usable: true });
+        }
+    }
+    v.push(Sym { off: 16, rad: 32, kind: Kind::Normal, usable: true }); // exactly at the limit
+    v.push(Sym { off: 16, rad: 33, kind: Kind::Normal, usable: true }); // too uncertain
+    v.push(Sym { off: 16, rad: 8, kind: Kind::Unsync, usable: true });
+    v.push(Sym { off: 16, rad: 8, kind: Kind::Periodic, usable: true });
+    v.push(Sym { off: 48, rad: 8, kind: Kind::Periodic, usable: true });
+    v
+}
+
+const REALISATIONS: usize = 3;
+
+fn d_algo(real: usize) -> AlgorithmConfig {
+    let (ws, wd) = match real {
+        0 => (2.0, 0.25), // the defaults
+        1 => (1.0, 1.0),
+        _ => (0.0, 1.0),
+    };
+    AlgorithmConfig {
+        maximum_source_uncertainty: D_LIMIT as f64 / 1024.0,
+        range_statistical_weight: ws,
+        range_delay_weight: wd,
+        ..AlgorithmConfig::default()
+    }
+}
+
+fn d_snap(id: u64, s: &Sym, real: usize) -> Snap {
+    let off = s.off as f64 / 1024.0;
+    let r = s.rad as f64 / 1024.0;
+    // radius = unc * ws + delay * wd, all exact in binary floating point
+    let (unc, delay) = match real {
+        0 => (r / 4.0, 2.0 * r),
+        1 => (r / 2.0, r / 2.0),
+        _ => (1.0 / 1024.0, r),
+    };
+    (
+        id,
+        off,
+        unc,
+        delay,
+        if s.kind == Kind::Periodic { Some(1.0) } else { None },
+        if s.kind == Kind::Unsync {
+            NtpLeapIndicator::Unsynchronized
+        } else {
+            NtpLeapIndicator::NoWarning
+        },
+    )
+}
+
+#[derive(Default)]
+struct Stats {
+    evals: u64,
+    acted: u64,
+    idle_no_eligible: u64,
+    idle_min: u64,
+    idle_majority: u64,
+    ties: u64,
+    tie_acted: u64,
+    tie_idle: u64,
+    periodic_selected: u64,
+    converse_ok: u64,
+    converse_miss: u64,
+    step: u64,
+    slew: u64,
+    calls: u64,
+    non_clique_on_tie: u64,
+}
+
+impl Stats {
+    fn note(&mut self, v: &Verdict, min: usize, acted: bool) {
+        self.evals += 1;
+        if acted {
+            self.acted += 1;
+        } else if v.eligible == 0 {
+            self.idle_no_eligible += 1;
+        } else if v.m_closed < min {
+            self.idle_min += 1;
+        } else {
+            self.idle_majority += 1;
+        }
+        if v.tie {
+            self.ties += 1;
+            if v.cond_closed != v.cond_open {
+                if acted {
+                    self.tie_acted += 1;
+                } else {
+                    self.tie_idle += 1;
+                }
+            }
+        }
+        if v.cond_open {
+            if acted {
+                self.converse_ok += 1;
+            } else {
+                self.converse_miss += 1;
+            }
+        }
+    }
+    fn flush(&self, ctx: &Ctx, p: &str) {
+        ctx.add("evaluations", self.evals);
+        ctx.add(&format!("{p}_cases"), self.evals);
+        ctx.add(&format!("{p}_acted"), self.acted);
+        ctx.add(&format!("{p}_idle_no_eligible_source"), self.idle_no_eligible);
+        ctx.add(&format!("{p}_idle_below_minimum"), self.idle_min);
+        ctx.add(&format!("{p}_idle_no_strict_majority"), self.idle_majority);
+        ctx.add(&format!("{p}_exact_tie_cases"), self.ties);
+        ctx.add(&format!("{p}_decisive_tie_counted_closed"), self.tie_acted);
+        ctx.add(&format!("{p}_decisive_tie_counted_open"), self.tie_idle);
+        ctx.add(&format!("{p}_periodic_source_in_selection"), self.periodic_selected);
+        ctx.add(&format!("{p}_touching_neighbours_both_selected"), self.non_clique_on_tie);
+        ctx.add(&format!("{p}_converse_consensus_and_acted"), self.converse_ok);
+        ctx.add(&format!("{p}_converse_consensus_but_idle"), self.converse_miss);
+        if self.step + self.slew > 0 {
+            ctx.add(&format!("{p}_step_clock"), self.step);
+            ctx.add(&format!("{p}_slew_or_freq_only"), self.slew);
+        }
+        ctx.add("impl_calls", self.calls);
+    }
+}
+
+fn d_case(word: &[usize], syms: &[Sym], real: usize, min: usize, nc: &mut u64) -> (Verdict, Result<u32, String>, Vec<(&'static str, String)>) {
+    let vec: Vec<Sym> = word.iter().map(|&i| syms[i]).collect();
+    let v = reference(&vec, D_LIMIT, min);
+    let snaps: Vec<Snap> = vec.iter().enumerate().map(|(i, s)| d_snap(i as u64, s, real)).collect();
+    let algo = d_algo(real);
+    let got = common::catch(|| algo.verif_gb_select_mask(min, &snaps));
+    let viol = match &got {
+        Ok(mask) => judge(&vec, D_LIMIT, min, &v, *mask != 0, *mask, nc),
+        Err(e) => vec![("C03:select-panic", format!("select panicked: {e}"))],
+    };
+    (v, got, viol)
+}
+
+fn d_trace(word: &[usize], real: usize, min: usize) -> String {
+    format!(
+        "d;real={real};min={min};syms={}",
+        word.iter().map(|x| x.to_string()).collect::<Vec<_>>().join(",")
+    )
+}
+
+fn run_direct(ctx: &Ctx, n: usize, reals: &[usize], mins: &[usize]) {
+    let syms = d_syms();
+    let k = syms.len();
+    let total = common::pow(k, n);
+    const CH: u64 = 2048;
+    let chunks = total.div_ceil(CH);
+    common::par_for(chunks, 1, |c| {
+        let mut st = Stats::default();
+        let mut distinct: Vec<u64> = Vec::new();
+        for x in c * CH..((c + 1) * CH).min(total) {
+            let word = common::word_of(x, k, n);
+            let mut sorted = word.clone();
+            sorted.sort_unstable();
+            for &real in reals {
+                for &min in mins {
+                    let (v, got, viol) = d_case(&word, &syms, real, min, &mut st.non_clique_on_tie);
+                    st.calls += 1;
+                    let mask = got.unwrap_or(0);
+                    st.note(&v, min, mask != 0);
+                    if word.iter().enumerate().any(|(i, &s)| mask & (1 << i) != 0 && syms[s].kind == Kind::Periodic) {
+                        st.periodic_selected += 1;
+                    }
+                    if v.eligible >= 2 {
+                        distinct.push(common::hash_of(&("d", &sorted, real, min)));
+                    }
+                    for (class, what) in viol {
+                        ctx.violation(class, format!("direct n={n}: {what}"), d_trace(&word, real, min));
+                    }
+                    if x % 100_003 == 17 && real == 0 && min == 2 {
+                        ctx.sample(format!(
+                            "direct {} -> selected mask {:#b} (eligible {}, agreeing closed/open {}/{})",
+                            d_trace(&word, real, min), mask, v.eligible, v.m_closed, v.m_open
+                        ));
+                    }
+                }
+            }
+        }
+        distinct.sort_unstable();
+        distinct.dedup();
+        ctx.distinct_many(distinct);
+        st.flush(ctx, "direct");
+    });
+}
+
+// ---------------------------------------------------------------------------------
+// (e) end-to-end driver
+// ---------------------------------------------------------------------------------
+
+const E_LIMIT: i64 = 4; // seconds
+
+/// 9 kinds x usable flag = 18 symbols; index = kind * 2 + usable
+fn e_syms() -> Vec<Sym> {
+    let mut kinds = Vec::new();
+    for off in [10, 12, 14] {
+        for rad in [1, 2] {
+            kinds.push(Sym { off, rad, kind: Kind::Normal, usable: true });
+        }
+    }
+    kinds.push(Sym { off: 12, rad: 5, kind: Kind::Normal, usable: true }); // too uncertain
+    kinds.push(Sym { off: 12, rad: 1, kind: Kind::Unsync, usable: true });
+    kinds.push(Sym { off: 12, rad: 1, kind: Kind::Periodic, usable: true }); // one-way: radius is 1 s by construction
+    let mut v = Vec::new();
+    for k in kinds {
+        v.push(Sym { usable: false, ..k });
+        v.push(Sym { usable: true, ..k });
+    }
+    v
+}
+
+/// cfg 0: default step threshold (10 ms) -> the correction is a step;
+/// cfg 1: step threshold 100 s -> the same correction becomes a slew (set_frequency).
+fn e_algo(cfg: usize) -> AlgorithmConfig {
+    AlgorithmConfig {
+        maximum_source_uncertainty: E_LIMIT as f64,
+        range_statistical_weight: 0.0,
+        range_delay_weight: 1.0,
+        step_threshold: if cfg == 1 { 100.0 } else { AlgorithmConfig::default().step_threshold },
+        ..AlgorithmConfig::default()
+    }
+}
+
+#[derive(Debug, Clone, PartialEq)]
+struct EObs {
+    /// clock calls while every source was still flagged unusable
+    early_steer: usize,
+    early_used: bool,
+    /// clock calls of the deciding update
+    log: Vec<Call>,
+    used: Option<Vec<u64>>,
+    source_message: bool,
+}
+
+fn e_run(vec: &[Sym], cfg: usize, min: usize, trigger: usize) -> EObs {
+    let clock = RecClock::new(t0());
+    let sync = SynchronizationConfig {
+        minimum_agreeing_sources: min,
+        ..SynchronizationConfig::default()
+    };
+    let mut ctl = Ctl::new(clock.clone(), sync, e_algo(cfg)).expect("controller");
+    let mut msgs: Vec<KalmanSourceMessage> = Vec::new();
+    let mut keep_two: Vec<TwoWay> = Vec::new();
+    let mut keep_one: Vec<OneWay> = Vec::new();
+    for (i, s) in vec.iter().enumerate() {
+        let leap = if s.kind == Kind::Unsync {
+            NtpLeapIndicator::Unsynchronized
+        } else {
+            NtpLeapIndicator::NoWarning
+        };
+        let m = if s.kind == Kind::Periodic {
+            let (src, m) = one_way_message(&mut ctl, i as u64, s.off, Some(100.0), leap);
+            keep_one.push(src);
+            m
+        } else {
+            let (src, m) = two_way_message(&mut ctl, i as u64, s.off, s.rad, leap);
+            keep_two.push(src);
+            m
+        };
+        let m = m.expect("first measurement yields a snapshot");
+        // machinery self-check: the snapshot carries exactly the chosen numbers
+        let sn = m.verif_gb_snap();
+        assert_eq!(sn.1, s.off as f64, "harness: offset not exact");
+        assert_eq!(sn.3, s.rad as f64, "harness: delay not exact");
+        assert_eq!(sn.4.is_some(), s.kind == Kind::Periodic);
+        msgs.push(m);
+    }
+    // phase A: everything is (explicitly) unusable while the table fills
+    let mut early_used = false;
+    for i in 0..vec.len() {
+        ctl.source_update(ClockId(i as u64), false);
+    }
+    for (i, m) in msgs.iter().enumerate() {
+        let u = ctl.source_message(ClockId(i as u64), *m);
+        early_used |= u.used_sources.is_some() || u.source_message.is_some();
+    }
+    let early = clock.take();
+    // phase B: the usable flags of the case
+    for (i, s) in vec.iter().enumerate() {
+        ctl.source_update(ClockId(i as u64), s.usable);
+    }
+    // phase C: one update on the complete table
+    let u = ctl.source_message(ClockId(trigger as u64), msgs[trigger]);
+    let log = clock.take();
+    EObs {
+        early_steer: early.iter().filter(|c| !matches!(c, Call::Disable)).count(),
+        early_used,
+        log,
+        used: u.used_sources.map(|v| {
+            let mut v: Vec<u64> = v.iter().map(|c| c.0).collect();
+            v.sort_unstable();
+            v
+        }),
+        source_message: u.source_message.is_some(),
+    }
+}
+
+fn e_judge(vec: &[Sym], min: usize, v: &Verdict, o: &EObs, nc: &mut u64) -> Vec<(&'static str, String)> {
+    let mut out = Vec::new();
+    if o.early_steer > 0 || o.early_used {
+        out.push((
+            "C03:ineligible-used",
+            format!("clock touched ({} calls) while every source was flagged unusable", o.early_steer),
+        ));
+    }
+    let steer = steering_calls(&o.log);
+    let acted = steer > 0 || o.used.is_some() || o.source_message;
+    let mut mask = 0u32;
+    for id in o.used.iter().flatten() {
+        mask |= 1 << (*id as u32);
+    }
+    let mut j = judge(vec, E_LIMIT, min, v, acted, mask, nc);
+    if steer > 0 && o.used.is_none() {
+        j.push(("C03:steer-without-consensus", "clock steered without a reported set of used sources".to_string()));
+    }
+    out.extend(j);
+    out
+}
+
+fn e_trace(word: &[usize], cfg: usize, min: usize, trigger: usize) -> String {
+    format!(
+        "e;cfg={cfg};min={min};trig={trigger};syms={}",
+        word.iter().map(|x| x.to_string()).collect::<Vec<_>>().join(",")
+    )
+}
+
+fn run_e2e(ctx: &Ctx, n: usize, mins: &[usize]) {
+    let syms = e_syms();
+    let k = syms.len();
+    let total = common::pow(k, n);
+    const CH: u64 = 256;
+    let chunks = total.div_ceil(CH);
+    common::par_for(chunks, 1, |c| {
+        super::block_on_paused(async {
+            let mut st = Stats::default();
+            let mut distinct: Vec<u64> = Vec::new();
+            for x in c * CH..((c + 1) * CH).min(total) {
+                let word = common::word_of(x, k, n);
+                let vec: Vec<Sym> = word.iter().map(|&i| syms[i]).collect();
+                let mut sorted = word.clone();
+                sorted.sort_unstable();
+                for &min in mins {
+                    let v = reference(&vec, E_LIMIT, min);
+                    for tc in 0..2 * n {
+                        let (trigger, cfg) = (tc / 2, tc % 2);
+                        let got = common::catch(|| e_run(&vec, cfg, min, trigger));
+                        st.calls += 3 * n as u64 + 2;
+                        match got {
+                            Err(e) => ctx.violation(
+                                "C03:controller-panic",
+                                format!("controller panicked (daemon would abort): {e}"),
+                                e_trace(&word, cfg, min, trigger),
+                            ),
+                            Ok(o) => {
+                                let steer = steering_calls(&o.log);
+                                let acted = steer > 0 || o.used.is_some();
+                                st.note(&v, min, acted);
+                                if o.log.iter().any(|c| matches!(c, Call::Step(_))) {
+                                    st.step += 1;
+                                } else if steer > 0 {
+                                    st.slew += 1;
+                                }
+                                if o.used.iter().flatten().any(|id| vec[*id as usize].kind == Kind::Periodic) {
+                                    st.periodic_selected += 1;
+                                }
+                                for (class, what) in e_judge(&vec, min, &v, &o, &mut st.non_clique_on_tie) {
+                                    ctx.violation(class, format!("end-to-end n={n}: {what}"), e_trace(&word, cfg, min, trigger));
+                                }
+                                if x % 20_011 == 5 && min == 1 && trigger == 0 && cfg == (x as usize / 20_011) % 2 {
+                                    ctx.sample(format!(
+                                        "e2e {} -> used {:?}, clock calls {:?} (eligible {}, agreeing closed/open {}/{})",
+                                        e_trace(&word, cfg, min, trigger), o.used, o.log, v.eligible, v.m_closed, v.m_open
+                                    ));
+                                }
+                            }
+                        }
+                    }
+                    if v.eligible >= 2 {
+                        distinct.push(common::hash_of(&("e", &sorted, min)));
+                    }
+                }
+            }
+            distinct.sort_unstable();
+            distinct.dedup();
+            ctx.distinct_many(distinct);
+            st.flush(ctx, "e2e");
+        });
+    });
+}
+
+// ---------------------------------------------------------------------------------
+// replay
+// ---------------------------------------------------------------------------------
+
+fn field<'a>(parts: &'a [&'a str], key: &str) -> Option<&'a str> {
+    parts.iter().find_map(|p| p.strip_prefix(key).and_then(|r| r.strip_prefix('=')))
+}
+
+fn replay(ctx: &Ctx, trace: &str) -> String {
+    let parts: Vec<&str> = trace.split(';').collect();
+    let word: Vec<usize> = field(&parts, "syms")
+        .unwrap_or("")
+        .split(',')
+        .filter_map(|s| s.parse().ok())
+        .collect();
+    let min: usize = field(&parts, "min").and_then(|s| s.parse().ok()).unwrap_or(1);
+    if parts[0] == "d" {
+        let real: usize = field(&parts, "real").and_then(|s| s.parse().ok()).unwrap_or(0);
+        let syms = d_syms();
+        if word.iter().any(|&i| i >= syms.len()) || word.len() > 16 {
+            return "bad trace".to_string();
+        }
+        let (v, got, viol) = d_case(&word, &syms, real, min, &mut 0);
+        for (class, what) in &viol {
+            ctx.violation(class, what.clone(), trace);
+        }
+        format!(
+            "selected={got:?} eligible={} closed={} open={} violations={:?}",
+            v.eligible,
+            v.m_closed,
+            v.m_open,
+            viol.iter().map(|x| x.0).collect::<Vec<_>>()
+        )
+    } else {
+        let trigger: usize = field(&parts, "trig").and_then(|s| s.parse().ok()).unwrap_or(0);
+        let cfg: usize = field(&parts, "cfg").and_then(|s| s.parse().ok()).unwrap_or(0);
+        let syms = e_syms();
+        if word.is_empty() || word.iter().any(|&i| i >= syms.len()) || trigger >= word.len() || word.len() > 16 {
+            return "bad trace".to_string();
+        }
+        let vec: Vec<Sym> = word.iter().map(|&i| syms[i]).collect();
+        let v = reference(&vec, E_LIMIT, min);
+        let got = super::block_on_paused(async { common::catch(|| e_run(&vec, cfg, min, trigger)) });
+        match got {
+            Err(e) => {
+                ctx.violation("C03:controller-panic", e.clone(), trace);
+                format!("panic {e}")
+            }
+            Ok(o) => {
+                let viol = e_judge(&vec, min, &v, &o, &mut 0);
+                for (class, what) in &viol {
+                    ctx.violation(class, what.clone(), trace);
+                }
+                // On an exact tie that decides the outcome the controller's HashMap order
+                // legitimately picks open or closed counting: not part of the observation.
+                let shown = if v.tie && v.cond_closed != v.cond_open {
+                    "ambiguous-exact-tie".to_string()
+                } else {
+                    format!("used={:?} calls={:?}", o.used, o.log)
+                };
+                format!(
+                    "{shown} eligible={} closed={} open={} violations={:?}",
+                    v.eligible,
+                    v.m_closed,
+                    v.m_open,
+                    viol.iter().map(|x| x.0).collect::<Vec<_>>()
+                )
+            }
+        }
+    }
+}
+
+#[test]
+fn check() {
+    let ctx = Ctx::new("C03");
+    if let Some(t) = common::replay_trace() {
+        let a = replay(&ctx, &t);
+        let b = replay(&ctx, &t);
+        common::report_replay("C03", &a, &b, ctx.violation_count() > 0);
+        return;
+    }
+    ctx.rule(
+        "(d) every vector of n source snapshots over 17 symbols {offset 0/16/32/48 x radius 8/16/24 (1/1024 s), radius == limit, \
+         radius just above limit, unsynchronised, periodic x2} x minimum-agreeing 1..=4 through the real select(), radius realised \
+         3 ways for n<=4 (quick) / n<=5 (thorough) and with the default weights for the largest n (quick 5, thorough 6); \
+         (e) every vector of n<=4 (quick) / 5 (thorough) sources over 9 kinds x usable flag through a fresh KalmanClockController \
+         (add_source/add_one_way_source, real first measurement, source_update, source_message) x minimum-agreeing 1..=3 x which \
+         source's message triggers the decision x {correction is a step, correction is a slew}. Non-trivial & distinct = distinct multiset of estimates (x setting) with >= 2 eligible sources.",
+    );
+    ctx.assume("the confidence interval of a source is offset +- (uncertainty*statistical-weight + delay*delay-weight); 'acceptable uncertainty' is radius <= maximum-source-uncertainty (configuration semantics, not re-derived)");
+    ctx.assume("on an exact tie (intervals touching in one point) both the closed and the open count are accepted");
+    ctx.assume("end to end only first-sample snapshots are used (exact offset/delay); later filter states are covered by the direct driver's arbitrary snapshots");
+    let mins4 = [1usize, 2, 3, 4];
+    let all_real: Vec<usize> = (0..REALISATIONS).collect();
+    let (d_full, d_top) = if ctx.quick() { (4, 5) } else { (5, 6) };
+    for n in 1..=d_full {
+        run_direct(&ctx, n, &all_real, &mins4);
+    }
+    ctx.set("direct_max_sources_all_realisations", d_full as u64);
+    if ctx.over_budget() {
+        ctx.cap_hit(&format!("direct n={d_top} not started; n<={d_full} complete"));
+    } else {
+        run_direct(&ctx, d_top, &[0], &mins4);
+        ctx.set("direct_max_sources", d_top as u64);
+    }
+    let e_top = if ctx.quick() { 4 } else { 5 };
+    let mut e_done = 0;
+    for n in 1..=e_top {
+        if ctx.over_budget() {
+            ctx.cap_hit(&format!("end-to-end n={n} not started; n<={e_done} complete"));
+            break;
+        }
+        run_e2e(&ctx, n, &[1, 2, 3]);
+        e_done = n;
+    }
+    ctx.set("e2e_max_sources", e_done as u64);
+    ctx.exhaustive(true);
+    ctx.finish();
+}
